@@ -77,7 +77,7 @@ Profile GetProfile(const std::string& name, bool thorough) {
   } else if (name == "C11") {
     p.twin_dyndep = true; p.check_convergence = false;
     p.gen.features |= F_DYNDEP | F_RESTAT | F_ORDERONLY;
-    p.w_dyndep_stir = 3; p.w_missing_dyndep_source = 2;
+    p.w_dyndep_stir = 3; p.w_missing_dyndep_source = 2; p.w_dyndep_restat_stir = 3;
     p.gen.features &= ~F_REGEN;
     p.w_del_log = 0; p.w_del_depfile = 0; p.w_regen = 0; p.w_inflate_log = 0;
     p.pm_cmd_fail = 0; p.pm_interrupt = 0; p.pm_crash = 0; p.pm_editor = 0; p.buggify = false;
@@ -1960,6 +1960,52 @@ struct Driver {
     rr.stats.n["missing_dyndep_source_builds"]++;
   }
 
+  // A statement whose restat attribute comes from a dyndep file: build everything; touch one of its
+  // sources and build (it re-runs and leaves its output alone); then make the dyndep file's producer
+  // re-run (the file is pending at the next scan) and build something downstream of the statement.
+  // With the attribute written in the manifest nothing but the producer runs; the dyndep variant must
+  // reach the same verdict once the file is loaded, whatever the order in which it re-scans.
+  void DoDyndepRestatStir() {
+    struct Cand { int p, c, d; std::string csrc, psrc; };
+    std::vector<Cand> cands;
+    auto source_of = [&](const Stmt& st) {
+      for (auto& q : st.ins) if (w.sc.IsSource(q) && !w.sc.FindDyndep(q) && q != "gen.src" && w.k.Exists(q)) return q;
+      return std::string();
+    };
+    for (const DyndepFile& dd : w.sc.dyndeps) {
+      if (dd.producer < 0 || !w.sc.stmts[dd.producer].alive || w.sc.stmts[dd.producer].phony) continue;
+      for (const DyndepEntry& e : dd.entries) {
+        if (e.stmt < 0 || !e.restat || !w.sc.stmts[e.stmt].alive || w.sc.stmts[e.stmt].phony) continue;
+        const Stmt& c = w.sc.stmts[e.stmt];
+        std::string cs = source_of(c), ps = source_of(w.sc.stmts[dd.producer]);
+        if (cs.empty() || ps.empty() || cs == ps) continue;
+        for (const Stmt& d : w.sc.stmts) {
+          if (!d.alive || d.phony || d.regen || d.id == c.id || d.outs.empty()) continue;
+          bool uses = false;
+          for (auto* l : {&d.ins, &d.imp_ins}) for (auto& q : *l) for (auto& o : c.outs) if (q == o) uses = true;
+          // (what a dyndep file adds counts as well: in the second twin world it is written into imp_ins,
+          // and the choice has to come out the same in both)
+          for (const DyndepFile& d2 : w.sc.dyndeps) for (const DyndepEntry& e2 : d2.entries) if (e2.stmt == d.id) for (auto& q : e2.imp_ins) for (auto& o : c.outs) if (q == o) uses = true;
+          if (uses) cands.push_back({dd.producer, c.id, d.id, cs, ps});
+        }
+      }
+    }
+    if (cands.empty()) return;
+    Cand u = cands[H((uint32_t)cands.size())];
+    Note("dyndep restat stir: consumer " + std::to_string(u.c) + ", producer " + std::to_string(u.p) + ", dependent " + std::to_string(u.d));
+    force_targets = true; forced_targets.clear();
+    DoBuild();
+    if (dead) return;
+    w.k.Touch(u.csrc, true); Note("touch " + u.csrc);
+    force_targets = true; forced_targets.clear();
+    DoBuild();
+    if (dead) return;
+    w.k.Touch(u.psrc, true); Note("touch " + u.psrc);
+    force_targets = true; forced_targets = {w.sc.stmts[u.d].outs[0]};
+    DoBuild();
+    rr.stats.n["dyndep_restat_stir"]++;
+  }
+
   void DoDeleteOutput() {
     std::vector<std::string> outs = AllOutputs();
     if (outs.empty()) return;
@@ -2057,7 +2103,7 @@ struct Driver {
       if (i == 0 && H(8) != 0) { DoBuild(); continue; }
       int ws[] = {prof.w_build, prof.w_edit, prof.w_touch, prof.w_del_out, prof.w_change_cmd, prof.w_change_rsp,
                   has_regen ? prof.w_regen * 4 : prof.w_regen, prof.w_del_log, prof.w_del_depfile, prof.w_clean, prof.w_cleandead, prof.w_tool_ro,
-                  prof.w_dry, prof.w_manifest_edit, prof.w_edit_includes, prof.w_empty_source, prof.w_inflate_log, prof.w_include_churn, prof.w_block_dir, invalid_dyndep_run ? 6 : 0, prof.damage ? 8 : 0, prof.subset_then_touch ? 3 : 0, prof.w_restat_tool, prof.w_missing_source, prof.w_dyndep_stir, prof.w_missing_dyndep_source};
+                  prof.w_dry, prof.w_manifest_edit, prof.w_edit_includes, prof.w_empty_source, prof.w_inflate_log, prof.w_include_churn, prof.w_block_dir, invalid_dyndep_run ? 6 : 0, prof.damage ? 8 : 0, prof.subset_then_touch ? 3 : 0, prof.w_restat_tool, prof.w_missing_source, prof.w_dyndep_stir, prof.w_missing_dyndep_source, prof.w_dyndep_restat_stir};
       int total = 0;
       for (int x : ws) total += x;
       int c = (int)H((uint32_t)total), op = 0;
@@ -2090,6 +2136,7 @@ struct Driver {
         case 23: DoMissingSource(); break;
         case 24: DoDyndepStir(); break;
         case 25: DoMissingDyndepSource(); break;
+        case 26: DoDyndepRestatStir(); break;
       }
     }
     // histories end with a build so that every change is exercised
